@@ -415,7 +415,11 @@ def execute(wd, sc):
             model = LevyDrivenSDEModel(driver=create_levy_model(ModelType[mt])(**kw), x0=1.0, a=Constant(1, 1, 1.0))
             grid = CTMCUniformGrid(h=sc["process"]["grid"]["h"], model=model.driver)
             cp = CouplingSDE(model=model, grid=grid, method=B.METHODS["adapted1d"])
-            product = Product(payoff_underlying=Spot(), payoff=PayoffOnTheFly(lambda u: float(np.ravel(u)[0])),
+            ndates = int(sc["product"].get("dates", 2))
+            und_ = Spot() if ndates <= 2 else B.DatedSpot(ndates)  # several product dates: the driver jumps date interval by date interval
+            if ndates > 2:
+                wd.probes["c03.sde_run_with_several_dates"] += 1
+            product = Product(payoff_underlying=und_, payoff=PayoffOnTheFly(lambda u: float(np.ravel(u)[0])),
                               maturity=sc["product"]["maturity"])
             cfg = ConfigurationMultiLevel(initial_level=0, maximum_level=sc["max_level"], initial_mc_paths=sc["n"],
                                           nb_of_processes=1, seed=sc["seed"])
@@ -553,6 +557,25 @@ def execute(wd, sc):
         df_, dc_ = np.diff(pj[0]), np.diff(pj[1])
         if np.any(df_ == 0.0):
             wd.probes["c03.pair_path_with_jump_free_steps"] += 1
+        # ... and where the fine component jumps to a grid state, the coarse one takes the same value (state on the
+        # coarse grid) or one of the two states next to it (state between two coarse states)
+        if lvl in levels:
+            axis_, origin_ = levels[lvl]
+            for i_ in np.flatnonzero(df_ != 0.0):
+                pos_ = int(np.argmin(np.abs(axis_ - df_[i_])))
+                if abs(axis_[pos_] - df_[i_]) > 1e-9 * (1.0 + abs(df_[i_])):
+                    continue  # not a single jump to a grid state (several jumps between two recorded points)
+                inc_ = pos_ - origin_
+                tol_ = 1e-9 * (1.0 + abs(df_[i_]))
+                if inc_ % 2 == 0:
+                    ok_ = abs(dc_[i_] - axis_[pos_]) <= tol_
+                else:
+                    ok_ = (pos_ >= 1 and abs(dc_[i_] - axis_[pos_ - 1]) <= tol_) or (pos_ + 1 < axis_.size and abs(dc_[i_] - axis_[pos_ + 1]) <= tol_)
+                wd.probes["c03.pair_path_jump_checked"] += 1
+                if not ok_:
+                    add(f"C03.a|a coarse jump of a simulated pair is neither the fine jump (coarse-grid state) nor a state next to it|in-the-returned-path|method={sc['process']['method']}",
+                        {"level": lvl, "fine_jump": float(df_[i_]), "coarse_jump": float(dc_[i_]), "increment": int(inc_)})
+                    break
         bad = np.flatnonzero((df_ == 0.0) & (np.abs(dc_) > 1e-12 * (1.0 + np.max(np.abs(pj[1])))))
         if bad.size:
             i = int(bad[0])
